@@ -626,3 +626,56 @@ def summarize_with_returns(fn, F):
     from . import inline
     h = {"params": fn["hir"]["params"], "body": inline.body_as_value(fn["hir"], fn["hir"]["body"])}
     return hir.Exec(h, F).run()
+
+
+def chess_evalcalls(board=None, extra=None):
+    """Evaluators for the small pure chess helpers on literal squares, for hir.fold(evalcalls=..):
+    Position::new/new_assert/new_unsafe, row, col, as_usize, add; Player::the_other; Game::get_position on a known square
+    (`board`: {(row, col): content normal form}; squares not in the dict stay symbolic)."""
+    SOME, NONE = "std::prelude::v1::Some", ("variant", "std::prelude::v1::None")
+    P = "chess::position::Position::"
+
+    def ints(args):
+        v = [hir.sym_int(a) for a in args]
+        return None if None in v else v
+
+    def pnew(args):
+        v = ints(args)
+        if v is None:
+            return None
+        return ("ctor", SOME, (("pos", v[0], v[1]),)) if 0 <= v[0] < 8 and 0 <= v[1] < 8 else NONE
+
+    def pmk(args):
+        v = ints(args)
+        return ("pos", v[0], v[1]) if v is not None else None
+
+    def prow(args):
+        return ("lit", args[0][1]) if args and args[0][:1] == ("pos",) else None
+
+    def pcol(args):
+        return ("lit", args[0][2]) if args and args[0][:1] == ("pos",) else None
+
+    def pidx(args):
+        return ("lit", args[0][1] * 8 + args[0][2]) if args and args[0][:1] == ("pos",) else None
+
+    def padd(args):
+        if len(args) == 2 and args[0][:1] == ("pos",) and args[1][:1] == ("tup",) and len(args[1]) == 3:
+            d = ints(args[1][1:])
+            if d is not None:
+                return pnew((("lit", args[0][1] + d[0]), ("lit", args[0][2] + d[1])))
+        return None
+
+    def other(args):
+        if args and args[0][0] == "variant" and args[0][1].startswith("chess::Player::"):
+            return ("variant", "chess::Player::" + ("Black" if args[0][1].endswith("White") else "White"))
+        return None
+
+    def getpos(args):
+        if board is not None and len(args) == 2 and args[1][:1] == ("pos",):
+            return board.get((args[1][1], args[1][2]))
+        return None
+    ev = {P + "new": pnew, P + "new_assert": pmk, P + "new_unsafe": pmk, P + "new_unchecked": pmk, P + "row": prow, P + "col": pcol,
+          P + "as_usize": pidx, P + "add": padd, "chess::Player::the_other": other, "chess::Game::get_position": getpos}
+    if extra:
+        ev.update(extra)
+    return ev
